@@ -86,6 +86,11 @@ Proof. intros; simpl. apply opk_eqb_true. Qed.
 (* ------------------------------------------------------------------ specification of the two effects *)
 Section Effects.
 Variable c : cfg.
+(* the executor lives on the running invocation; execute_task replays unconditionally; the value
+   generators are private to their call *)
+Hypothesis Hsc : c_scope c = PerExecution.
+Hypothesis Hru : c_replay_uncond c = true.
+Hypothesis Hgp : c_gen_private c = true.
 
 Inductive gen_spec (W : world) (xw : nat) : opk -> nat -> list (skey * value) -> nat -> value -> Prop :=
 | GS_rnd : forall g, gen_spec W xw Rnd g (store W) (clock W) (VRand (seed_wf c xw) g)
@@ -109,7 +114,7 @@ Inductive det_spec (W : world) (x : executor) (k : opk) : eff -> Prop :=
 
 Lemma det_op_spec : forall W x k, det_spec W x k (det_op c W x k).
 Proof.
-  intros W x k. unfold det_op. rewrite cnt_bump_same.
+  intros W x k. unfold det_op, det_op_with. rewrite cnt_bump_same.
   destruct (slookup (x_wf x, KOp k (S (cnt k x))) (store W)) as [v|] eqn:Hl.
   - apply DS_hit; exact Hl.
   - destruct k.
@@ -132,42 +137,44 @@ Inductive exec_spec (W : world) (x : executor) (aw call : nat) : eff -> Prop :=
 
 Lemma exec_op_spec : forall W x aw call, exec_spec W x aw call (exec_op c W x aw call).
 Proof.
-  intros W x aw call. unfold exec_op.
+  intros W x aw call. unfold exec_op, replay_accepts. rewrite Hru.
   destruct (slookup (x_wf x, task_key c call) (store W)) as [v|] eqn:Hl.
-  - apply ES_hit; exact Hl.
+  - cbn [orb]. apply ES_hit; exact Hl.
   - apply ES_miss; exact Hl.
 Qed.
 
 (* ---------------------------------------------------------------- one step, per-execution scope *)
-Hypothesis Hsc : c_scope c = PerExecution.
 
 Inductive step_spec (W : world) : event -> world -> Prop :=
 | SS_skip : forall ev, step_spec W ev W
-| SS_begin : forall e p t w, nlookup e (exes W) = None ->
+| SS_aux : forall ev sd, step_spec W ev (set_aux W sd)      (* only the side state changes *)
+| SS_begin : forall e p t w sd, nlookup e (exes W) = None ->
     step_spec W (EBegin e p t w)
       {| store := store W; clock := clock W; next_inv := next_inv W; caches := caches W;
          exes := (e, {| e_proc := p; e_task := t; e_wf := w; e_x := new_x w |}) :: exes W;
-         launches := launches W; outs := outs W |}
-| SS_det : forall e ex k f, nlookup e (exes W) = Some ex -> det_spec W (e_x ex) k f ->
+         launches := launches W; outs := outs W; aux := sd |}
+| SS_det : forall e ex k f sd, nlookup e (exes W) = Some ex -> det_spec W (e_x ex) k f ->
     step_spec W (EOp e (ODet k))
       {| store := f_store f; clock := f_clock f; next_inv := f_next f; caches := caches W;
          exes := (e, set_e_x ex (f_x f)) :: exes W; launches := f_launch f;
-         outs := outs W ++ [(e, ODet k, f_val f)] |}
-| SS_exec : forall e ex call f, nlookup e (exes W) = Some ex ->
+         outs := outs W ++ [(e, ODet k, f_val f)]; aux := sd |}
+| SS_exec : forall e ex call f sd, nlookup e (exes W) = Some ex ->
     exec_spec W (e_x ex) (e_wf ex) call f ->
     step_spec W (EOp e (OExec call))
       {| store := f_store f; clock := f_clock f; next_inv := f_next f; caches := caches W;
          exes := (e, set_e_x ex (f_x f)) :: exes W; launches := f_launch f;
-         outs := outs W ++ [(e, OExec call, f_val f)] |}.
+         outs := outs W ++ [(e, OExec call, f_val f)]; aux := sd |}.
 
 Lemma step_is_spec : forall W ev, step_spec W ev (step c W ev).
 Proof.
-  intros W [e p t w|e o]; unfold step.
+  intros W [e p t w|e o|w call|e k]; unfold step.
   - destruct (nlookup e (exes W)) eqn:He; [apply SS_skip|apply SS_begin; exact He].
   - destruct (nlookup e (exes W)) as [ex|] eqn:He; [|apply SS_skip].
     unfold put_x, get_x. rewrite Hsc. destruct o as [k|call].
-    + apply SS_det; [exact He|apply det_op_spec].
+    + unfold draw. rewrite Hgp. apply SS_det; [exact He|apply det_op_spec].
     + apply SS_exec; [exact He|apply exec_op_spec].
+  - destruct (slookup (w, task_key c call) (store W)) as [[]|]; try apply SS_skip. apply SS_aux.
+  - rewrite Hgp. apply SS_skip.
 Qed.
 
 (* generic induction principle over runs *)
@@ -246,7 +253,8 @@ Qed.
 Lemma Inv1_step : forall W ev W', Inv1 W -> step_spec W ev W' -> Inv1 W'.
 Proof.
   intros W ev W' I Hs. destruct I as [Ik Iw Ic Ir].
-  destruct Hs as [ev|e p t w Hn|e ex k f He Hd|e ex call f He Hx].
+  destruct Hs as [ev|ev sd|e p t w sd Hn|e ex k f sd He Hd|e ex call f sd He Hx].
+  - constructor; assumption.
   - constructor; assumption.
   - (* begin *)
     assert (Hvals : forall k, vals e k (outs W) = []).
@@ -376,7 +384,8 @@ Proof. constructor; simpl; intros; try contradiction; try discriminate. construc
 Lemma Inv2_step : forall W ev W', Inv1 W -> Inv2 W -> step_spec W ev W' -> Inv2 W'.
 Proof.
   intros W ev W' I1 I Hs. destruct I as [Jl Js Jo Jn].
-  destruct Hs as [ev|e p t w Hn|e ex k f He Hd|e ex call f He Hx].
+  destruct Hs as [ev|ev sd|e p t w sd Hn|e ex k f sd He Hd|e ex call f sd He Hx].
+  - constructor; assumption.
   - constructor; assumption.
   - constructor; cbn [store clock next_inv caches exes launches outs]; try assumption.
     intros e' ex' call v Hin Hl. destruct (Nat.eq_dec e' e) as [->|Hne].
@@ -535,7 +544,8 @@ Qed.
 Lemma Inv3_step : forall W ev W', Inv1 W -> Inv3 W -> step_spec W ev W' -> Inv3 W'.
 Proof.
   intros W ev W' I1 I Hs. destruct I as [Kb Kbi Kl Kli Kt Ko Kout].
-  destruct Hs as [ev|e p t w Hn|e ex k f He Hd|e ex call f He Hx].
+  destruct Hs as [ev|ev sd|e p t w sd Hn|e ex k f sd He Hd|e ex call f sd He Hx].
+  - constructor; assumption.
   - constructor; assumption.
   - constructor; cbn [store clock next_inv caches exes launches outs]; try assumption.
     intros e' ex' o v Hin Hl. destruct (Nat.eq_dec e' e) as [->|Hne].
@@ -548,7 +558,7 @@ Proof.
     assert (HN : f_next f = next_inv W) by (destruct Hd; reflexivity).
     set (W' := {| store := f_store f; clock := f_clock f; next_inv := f_next f; caches := caches W;
                   exes := (e, set_e_x ex (f_x f)) :: exes W; launches := f_launch f;
-                  outs := outs W ++ [(e, ODet k, f_val f)] |}).
+                  outs := outs W ++ [(e, ODet k, f_val f)]; aux := sd |}).
     assert (Mono : forall w v, owned W w v -> owned W' w v).
     { intros w v. apply owned_mono.
       - intros w1 b Hl. unfold W'; cbn [store]. eapply det_base_keeps; eassumption.
@@ -606,7 +616,7 @@ Proof.
     pose proof (i_wf _ I1 _ _ He) as Hw.
     set (W' := {| store := f_store f; clock := f_clock f; next_inv := f_next f; caches := caches W;
                   exes := (e, set_e_x ex (f_x f)) :: exes W; launches := f_launch f;
-                  outs := outs W ++ [(e, OExec call, f_val f)] |}).
+                  outs := outs W ++ [(e, OExec call, f_val f)]; aux := sd |}).
     assert (HC : f_clock f = clock W) by (destruct Hx; reflexivity).
     assert (Hinc : forall l, In l (launches W) -> In l (f_launch f)).
     { destruct Hx; cbn [f_launch]; [auto|]. intros l Hin. right; exact Hin. }
@@ -676,7 +686,7 @@ Lemma step_local : forall W ev W', Inv1 W -> step_spec W ev W' ->
   slookup (w', key) (store W') = slookup (w', key) (store W).
 Proof.
   intros W ev W' I1 Hs e0 o0 ex0 w' key Hev Hl Hne.
-  destruct Hs as [ev|e p t w Hn|e ex k f He Hd|e ex call f He Hx]; try reflexivity.
+  destruct Hs as [ev|ev sd|e p t w sd Hn|e ex k f sd He Hd|e ex call f sd He Hx]; try reflexivity.
   - inversion Hev; subst. rewrite Hl in He. inversion He; subst.
     pose proof (i_wf _ I1 _ _ Hl) as Hw. cbn [store].
     destruct Hd as [v0 H0|st1 clk1 v0 tot H0 Hg]; cbn [f_store]; [reflexivity|].
@@ -706,11 +716,12 @@ End Effects.
 
 (* ================================================================ the statement, per scope *)
 Theorem per_execution_satisfies : forall c,
-  c_scope c = PerExecution -> c_seed_wf c = true -> c_task_key_call c = true -> C18_statement c.
+  c_scope c = PerExecution -> c_seed_wf c = true -> c_task_key_call c = true ->
+  c_replay_uncond c = true -> c_gen_private c = true -> C18_statement c.
 Proof.
-  intros c H1 H2 H3. split; [|split].
+  intros c H1 H2 H3 H4 H5. split; [|split].
   - intros evs e1 e2 w k n v1 v2 A B C D.
-    exact (nth_value_stable_lemma c H1 evs e1 e2 w k n v1 v2 A B C D).
+    exact (nth_value_stable_lemma c H1 H4 H5 evs e1 e2 w k n v1 v2 A B C D).
   - apply sub_task_once_lemma; assumption.
   - apply no_mix_lemma; assumption.
 Qed.
@@ -718,16 +729,21 @@ Qed.
 Lemma with_scope_id : forall c, with_scope c (c_scope c) = c.
 Proof. intros []; reflexivity. Qed.
 
-(* the facts generated from the current source, apart from the scope of the executor *)
-Lemma gen_facts_good : c_seed_wf gen_cfg = true /\ c_task_key_call gen_cfg = true.
-Proof. split; reflexivity. Qed.
+(* the facts generated from the current source, apart from the scope of the executor: seeds contain the
+   workflow id, the sub-task record key contains the call identity, the replay branch of execute_task is
+   unconditional, the value generators keep no state outside their call *)
+Lemma gen_facts_good :
+  c_seed_wf gen_cfg = true /\ c_task_key_call gen_cfg = true /\
+  c_replay_uncond gen_cfg = true /\ c_gen_private gen_cfg = true.
+Proof. repeat split; reflexivity. Qed.
 
 Definition fixed_cfg : cfg := with_scope gen_cfg PerExecution.
 Definition cached_cfg : cfg := with_scope gen_cfg PerTaskObject.
 
 Theorem fixed_cfg_satisfies : C18_statement fixed_cfg.
 Proof.
-  destruct gen_facts_good as [H1 H2]. apply per_execution_satisfies; [reflexivity|exact H1|exact H2].
+  destruct gen_facts_good as [H1 [H2 [H3 H4]]].
+  apply per_execution_satisfies; [reflexivity|exact H1|exact H2|exact H3|exact H4].
 Qed.
 
 (* ---- witnesses against the executor cached per Task object (computed) *)
@@ -796,6 +812,60 @@ Proof.
   - intro H. destruct cached_workflows_share_value as [evs [e1 [e2 [w1 [w2 [o1 [o2 [v [A [B [C [D E]]]]]]]]]]]].
     destruct (H evs) as [G _]. exact (G _ _ _ _ _ _ _ _ A B C D E eq_refl).
 Qed.
+
+(* ---- a guarded replay branch in execute_task (computed witness): the recorded sub-invocation fails,
+   the body is executed again (another process image: nothing but the workflow data is shared) and
+   launches the identical call a second time; the two executions hold different invocations *)
+Definition guarded_cfg : cfg := with_guarded_replay fixed_cfg.
+Definition wit_relaunch : list event :=
+  [EBegin 0 0 0 1; EOp 0 (OExec 1); EChild 1 1; EBegin 1 1 0 1; EOp 1 (OExec 1)].
+
+Theorem guarded_replay_refuted : ~ sub_task_once_stmt guarded_cfg.
+Proof.
+  intro H. destruct (H wit_relaunch) as [Hnd [_ Hsame]].
+  assert (E : VInv 0 = VInv 1).
+  { apply (Hsame 0 1 1 1 (VInv 0) (VInv 1)); vm_compute; auto. }
+  discriminate E.
+Qed.
+
+Lemma guarded_replay_launches_twice :
+  map launch_key (launches (run guarded_cfg wit_relaunch)) = [(1, 1); (1, 1)].
+Proof. vm_compute. reflexivity. Qed.
+
+(* ---- a value generator that goes through process-wide state (computed witness): workflow 1 prepares
+   the shared generator and is pre-empted, workflow 2 prepares it too, workflow 1 draws workflow 2's
+   number; the execution of workflow 2 dies, its recovery draws the same number: one value in two
+   workflows, and a value that was not derived for the workflow that got it *)
+Definition shared_gen_cfg : cfg := with_shared_generator fixed_cfg.
+Definition wit_shared : list event :=
+  [EBegin 0 0 0 1; EBegin 1 0 0 2; ESeed 0 Rnd; ESeed 1 Rnd; EOp 0 (ODet Rnd);
+   EBegin 2 1 0 2; EOp 2 (ODet Rnd)].
+
+Theorem shared_generator_refuted :
+  ~ no_mix_stmt shared_gen_cfg /\
+  ~ (forall evs e w o v, wf_of (run shared_gen_cfg evs) e = Some w ->
+       In (e, o, v) (outs (run shared_gen_cfg evs)) -> owned (run shared_gen_cfg evs) w v).
+Proof.
+  split.
+  - intro H. destruct (H wit_shared) as [G _].
+    apply (G 0 2 1 2 (ODet Rnd) (ODet Rnd)
+             (VRand (seed_wf gen_cfg 2) (1 + c_seq_offset gen_cfg))
+             (VRand (seed_wf gen_cfg 2) (1 + c_seq_offset gen_cfg)));
+      vm_compute; auto; discriminate.
+  - intro H.
+    pose proof (H wit_shared 0 1 (ODet Rnd) (VRand (seed_wf gen_cfg 2) (1 + c_seq_offset gen_cfg))) as G.
+    assert (X : owned (run shared_gen_cfg wit_shared) 1
+                  (VRand (seed_wf gen_cfg 2) (1 + c_seq_offset gen_cfg))).
+    { apply G; vm_compute; auto. }
+    vm_compute in X. discriminate X.
+Qed.
+
+(* the pre-empted draw after the other workflow has already drawn: a stale draw *)
+Lemma shared_generator_stale_draw :
+  map (fun x => snd x)
+      (outs (run shared_gen_cfg [EBegin 0 0 0 1; EBegin 1 0 0 2; ESeed 0 Rnd; EOp 1 (ODet Rnd); EOp 0 (ODet Rnd)]))
+  = [VRand (seed_wf gen_cfg 2) (1 + c_seq_offset gen_cfg); VStale (seed_wf gen_cfg 2) (1 + c_seq_offset gen_cfg)].
+Proof. vm_compute. reflexivity. Qed.
 
 Theorem statement_iff_per_execution : forall s,
   C18_statement (with_scope gen_cfg s) <-> s = PerExecution.
